@@ -18,8 +18,8 @@ R3_MISSED = "C03-m6 C08-m6 C14-m6".split()
 R3_TIE = "C03-m5 C05-m6 C09-m5 C09-m6 C10-m5 C11-m6".split()
 R4_MISSED = "C12-m7".split()
 R4_TIE = "C02-m8 C04-m8 C12-m8 C15-m8".split()
-R5_MISSED = []  # filled in from selftest/round5_first_contact.log
-R5_TIE = []
+R5_MISSED = "C02-m10 C07-m9 C09-m10 C13-m10".split()
+R5_TIE = "C01-m9 C01-m10 C02-m9 C03-m9 C03-m10 C04-m9 C04-m10 C05-m9 C05-m10 C06-m9 C07-m10 C08-m9 C10-m10 C11-m9 C11-m10 C12-m10 C15-m9 C16-m9".split()
 for k in R1_MISSED + R2_MISSED + R3_MISSED + R4_MISSED + R5_MISSED:
     FIRST[k] = "missed"
 for k in R1_TIE + R2_TIE + R3_TIE + R4_TIE + R5_TIE:
